@@ -93,10 +93,10 @@ def kernel_impl(c):
 
 # ----------------------------------------------------------------------------- documents and histories
 
-def base_doc(kind, seed):
+def base_doc(kind, seed, opts=None):
     """returns (doc, gen)"""
     import collada
-    gen = modelgen.Gen(seed)
+    gen = modelgen.Gen(seed, opts)
     if kind == 'constructed':
         return gen.build(), gen
     if kind == 'reloaded':
@@ -104,7 +104,12 @@ def base_doc(kind, seed):
         b = io.BytesIO()
         d.write(b)
         return collada.Collada(io.BytesIO(b.getvalue())), gen
-    doc = collada.Collada(os.path.join(DATA, kind))
+    if kind == 'docgen':
+        # loaded from a file pycollada did not write (strips, fans, bindings inside <vertices>, shared offsets, ...)
+        from vlib import docgen
+        doc = collada.Collada(io.BytesIO(docgen.generate(seed, dict(anim=False))))
+    else:
+        doc = collada.Collada(os.path.join(DATA, kind))
     gen.doc = doc
     return doc, gen
 
@@ -293,7 +298,7 @@ def run(ctx):
     # (b) histories
     nhist = ctx.n(140, 4000)
     maxops = 12 if not ctx.thorough else 40
-    bases = ['constructed', 'reloaded'] + CORPUS
+    bases = ['constructed', 'reloaded', 'docgen', 'docgen', 'docgen'] + CORPUS
     site_lines_all, site_meta = [], []
     reported = set()
     nvalue = ctx.n(400, 8000)
@@ -324,6 +329,20 @@ def run(ctx):
         if 'site' in res:
             lines, actual, names = res['site']
             site_lines_all.append((lines, actual, names, dict(base=kind, seed=seed, nops=nops)))
+    for i in range(ctx.n(40, 800)):
+        vseed = ctx.rng.randrange(10 ** 6)
+        try:
+            res = vertex_inputs_history(vseed)
+        except Exception as e:
+            res = 'skip'
+            ctx.count('vertex-inputs:edit-raised:' + type(e).__name__)
+        if res == 'skip':
+            continue
+        ctx.count('vertex-inputs')
+        ctx.case(dict(kind='vertex-inputs', seed=vseed))
+        if res and res[0] not in reported:
+            reported.add(res[0])
+            ctx.violation('c02:' + res[0], res[1], dict(kind='vertex-inputs', seed=vseed))
     # site correspondence through the driver (CHAIN lines use the previous answer as their old list)
     if ctx.lean_ok:
         flat = []
@@ -364,6 +383,71 @@ def run(ctx):
     ctx.assumptions.append('edit histories keep the model self-consistent (vlib/editgen.py); numeric comparison modulo the seven digits written')
 
 
+def vertex_inputs_history(seed):
+    """a loaded mesh whose <vertices> binds more than the positions (NORMAL, TEXCOORD next to POSITION): remove some of those bindings together
+    with their sources, rebuild the primitives over the VERTEX input alone, save, reload. Returns None, 'skip' or (sig, what)"""
+    import collada
+    import numpy
+    from collada import source, triangleset, lineset, polylist
+    from vlib import docgen
+    r = random.Random('c02vi/%s' % seed)
+    doc = None
+    for k in range(60):
+        try:
+            d = collada.Collada(io.BytesIO(docgen.generate(seed * 61 + k, dict(anim=False))))
+        except Exception:
+            continue
+        cands = [(g, key) for g in d.geometries for key, v in g.sourceById.items() if isinstance(v, dict) and len(v) >= 3]
+        if cands:
+            doc = d
+            break
+    if doc is None:
+        return 'skip'
+    g, vkey = r.choice(cands)
+    vdict = g.sourceById[vkey]
+    extras = [sem for sem in vdict if sem != 'POSITION']
+    drop = extras if r.random() < 0.6 else r.sample(extras, r.randint(1, len(extras)))
+    used_elsewhere = set(t[2][1:] for p in g.primitives for sem, tupes in p.sources.items() for t in tupes if sem not in drop and sem != 'VERTEX')
+    hist = []
+    for sem in drop:
+        src = vdict[sem]
+        del vdict[sem]
+        if src.id not in used_elsewhere and src.id in g.sourceById and not any(src is x for x in vdict.values()):
+            del g.sourceById[src.id]
+        hist.append('unbind %s(%s)' % (sem, src.id))
+    # primitives over the VERTEX input alone (same vertex indices)
+    new = []
+    for p in g.primitives:
+        il = source.InputList()
+        il.addInput(0, 'VERTEX', '#' + vkey)
+        vi = numpy.array(p.vertex_index).reshape(-1) if p.vertex_index is not None else numpy.array([], dtype=numpy.int32)
+        if isinstance(p, triangleset.TriangleSet):
+            new.append(g.createTriangleSet(vi, il, p.material))
+        elif isinstance(p, lineset.LineSet):
+            new.append(g.createLineSet(vi, il, p.material))
+        elif isinstance(p, polylist.Polylist):
+            new.append(g.createPolylist(vi, numpy.array(p.vcounts), il, p.material))
+        else:
+            new.append(g.createPolylist(vi, numpy.array(p.vcounts), il, p.material))
+    g.primitives[:] = new
+    expected = strip(snap.snapshot(doc, norm7=True, errors=False, derive_matrix=True))
+    try:
+        buf = io.BytesIO()
+        doc.write(buf)
+    except Exception as e:
+        return ('vertex-inputs:write:' + type(e).__name__, 'after %s on geometry %s write raised %s: %s' % (hist, g.id, type(e).__name__, str(e)[:150]))
+    try:
+        d1 = collada.Collada(io.BytesIO(buf.getvalue()))
+    except Exception as e:
+        return ('vertex-inputs:reload:' + type(e).__name__, 'after %s on geometry %s the written document does not load: %s: %s' % (hist, g.id, type(e).__name__, str(e)[:150]))
+    df = snap.diff(expected, strip(snap.snapshot(d1, errors=False)))
+    if df:
+        return ('vertex-inputs:diff', 'after %s on geometry %s the reloaded model differs from the edited model at %s' % (hist, g.id, '; '.join(df[:4])))
+    for sem in drop:
+        pass
+    return None
+
+
 def shrink(kind, seed, nops, sig, kinds=None):
     ops = list(range(nops))
 
@@ -386,6 +470,11 @@ def replay(ctx, rep):
         c = rep['line']
         print('  kernel divergence recorded for %r' % c)
         return False
+    if rep.get('kind') == 'vertex-inputs':
+        res = vertex_inputs_history(rep['seed'])
+        if res and res != 'skip':
+            print('  ' + res[1])
+        return bool(res) and res != 'skip'
     r = run_history(rep['base'], rep['seed'], rep['nops'], ops=rep.get('ops'), kinds=rep.get('kinds'))
     if not r['ok']:
         print('  ' + r['what'])
